@@ -581,7 +581,7 @@ def extremum_updates(analyzer, fn, is_acc):
                     if r is None:
                         continue
                     kind = 'sentinel' if r[0][0] in ('int', 'float') else 'cmp'
-                    cands.append(((l_, (a_, t_, l_) == fact), kind, r[0], r[1]))
+                    cands.append((((a_, t_, l_) == fact, l_), kind, r[0], r[1]))
                 if cands:
                     cands.sort(key=lambda c: c[0])
                     _, kind, e_, rel_ = cands[-1]      # the closest test (the edge's own test wins a tie) justifies this edge
